@@ -18,12 +18,19 @@ PROP = "C20"
 
 
 def asan_run(cmd, timeout=600):
-    env = dict(os.environ, ASAN_OPTIONS="detect_leaks=0:abort_on_error=0:halt_on_error=1")
+    # detect_stack_use_after_scope=0: the scope markers rustc emits for iterator temporaries produced a report INSIDE
+    # the harness's own scheduler loop (std `Vec::extend` over a filtered slice iterator, thread T0, unchanged tree): a
+    # false positive of the instrumentation, not a memory error.  The heap checks (use-after-free, double free, overflow)
+    # are what C20's reclamation and buffer rules are about and stay on.
+    env = dict(os.environ, ASAN_OPTIONS="detect_leaks=0:abort_on_error=0:halt_on_error=1:detect_stack_use_after_scope=0")
     rc, so, se = v.run_cmd(cmd, timeout=timeout, env=env)
     report = None
     if "AddressSanitizer" in se or "AddressSanitizer" in so:
         i = se.find("AddressSanitizer")
-        report = se[max(0, i - 100):i + 1500]
+        report = se[max(0, i - 100):i + 4000]
+        # a report whose stacks never enter the crate under test is a problem of the harness, not a result
+        if "feoxdb" not in se[i:i + 20000]:
+            raise v.ToolError("AddressSanitizer report inside the harness only: " + report[:600])
     return rc, so, se, report
 
 
@@ -112,6 +119,11 @@ def run(tier, seed):
         runs.append(("scanstorm_%d" % i, [fxa, "conc", "--mode", "scanstorm", "--out", os.path.join(rd, "asans_%d.ndjson" % i),
                                           "--seed", str(rng.randrange(1 << 30)), "--millis", "2500" if tier == "quick" else "6000",
                                           "--keys", str([16, 700, 64][i % 3]), "--stallmask", str([63, 31, 127][i % 3])]))
+    # readers spinning on hot keys of a persistent store while a writer replaces them and flushes: every read races with
+    # the flush worker releasing the value of the generation it has just written
+    for i in range(2 if tier == "quick" else 6):
+        runs.append(("readstorm_%d" % i, [fxa, "conc", "--mode", "readstorm", "--dir", shm, "--millis", "2500" if tier == "quick" else "6000",
+                                          "--readers", str([6, 10][i % 2]), "--keys", str([1, 3][i % 2]), "--cache", str(i % 2)]))
     # the crate's other safe public type with unsafe inside: the aligned I/O buffer, through safe calls only
     for i in range(2 if tier == "quick" else 8):
         runs.append(("api_%d" % i, [fxa, "apisurface", "--seed", str(rng.randrange(1 << 30)), "--rounds", "300"]))
